@@ -444,6 +444,12 @@ class Exec:
         st.known[key] = v
         if isinstance(v, int):
             _range_update(st, key, v)
+        if isinstance(key, tuple) and key[0] == "bin" and key[1] in ("Eq", "Ne") and isinstance(v, int) and v in (0, 1):
+            twin = ("bin", "Ne" if key[1] == "Eq" else "Eq", key[2], key[3])
+            st.known[twin] = 1 - v
+            if key[1] == "Ne":
+                # conditions are reported in one form: `x != c` taken is `x == c` not taken
+                key, v = twin, 1 - v
         sp = t.get("span") or {}
         st.events.append(Event("cond", bb, frame, body, term=key, value=v, exp=bool(sp.get("exp")), span=sp,
                                is_bool=self._is_bool(d, body, t)))
@@ -559,6 +565,9 @@ class Exec:
             if "int" in c:
                 return ("c", int(c["int"]), c["ty"])
             if "param" in c:
+                bound = st.env.get(("cparam", c["param"]))
+                if bound is not None:
+                    return bound
                 return ("param_const", c["param"])
             if "uneval" in c:
                 pc = self.prog.consts.get(c["uneval"])
@@ -665,7 +674,7 @@ class Exec:
                 callee_body = cb
         if callee_body is not None and len(frame) < 6 and callee_body.name not in frame:
             st.events.append(Event("enter", bb, frame, body, target=target, ntarget=nt, args=args, span=span))
-            for (st3, ex, ret) in self._inline(callee_body, st, args, frame, bb, body, untuple=is_closure_call):
+            for (st3, ex, ret) in self._inline(callee_body, st, args, frame, bb, body, untuple=is_closure_call, callee=c):
                 if ex[0] != "return":
                     yield (st3, ex if ex[0] == "diverge" else ("retry-inner", callee_body.name), None)
                     continue
@@ -716,6 +725,10 @@ class Exec:
         pure = (nt in PURE_EXTERNAL) or (target in self.pure) or (nt in self.pure)
         uid = None if pure else fresh()
         res = ("call", target, tuple(args), uid)
+        inv = INVERSE_PAIRS.get(target)
+        if inv is not None and pure and len(args) == 1 and isinstance(args[0], tuple) and args[0][0] == "call" and \
+                args[0][1] == inv and args[0][3] is None and len(args[0][2]) == 1:
+            res = args[0][2][0]      # from_raw(as_raw(s)) = s
         mut_args = []
         for i, a in enumerate(t["args"]):
             p = op_place(a)
@@ -725,6 +738,10 @@ class Exec:
                     mut_args.append(i)
         ev = Event("call", bb, frame, body, target=target, ntarget=nt, args=args, result=res, callee=c, span=span,
                    fterm=fterm, pure=pure)
+        if frame:
+            tp = {k[1]: v for k, v in st.env.items() if isinstance(k, tuple) and k[0] == "tparam"}
+            if tp:
+                ev.data["tparams"] = tp
         st.events.append(ev)
         if not pure:
             st.memver += 1
@@ -736,7 +753,7 @@ class Exec:
         for r in cont(st, res):
             yield r
 
-    def _inline(self, cbody, st, args, frame, bb, caller, untuple):
+    def _inline(self, cbody, st, args, frame, bb, caller, untuple, callee=None):
         if isinstance(cbody, _FnShim):
             # a fn item used as a callable value: a direct call with the (untupled) arguments
             tup = args[1] if untuple and len(args) > 1 else None
@@ -796,6 +813,24 @@ class Exec:
                 a0 = env[1]
                 if not selfty.startswith("&") and isinstance(a0, tuple) and a0[0] == "ref":
                     env[1] = a0[1]
+        # const generic parameters: a closure sees its parent's, a function those of the call (`cas::<false>`)
+        if cbody.kind == "closure":
+            for k, v in st.env.items():
+                if isinstance(k, tuple):
+                    env[k] = v
+        elif callee is not None:
+            gens = [g for g in sorted(cbody.j.get("generics", []), key=lambda g: g.get("index", 0))
+                    if g.get("kind") != "lifetime"]
+            cargs = getattr(callee, "resolved_args", None) or getattr(callee, "args", None) or []
+            if len(gens) == len(cargs):
+                for g, a in zip(gens, cargs):
+                    if g.get("kind") == "type" and a.get("k") == "ty":
+                        env[("tparam", g["name"])] = subst_ty(a["ty"], st.env)
+                    if g.get("kind") == "const" and a.get("k") == "const":
+                        if "int" in a:
+                            env[("cparam", g["name"])] = ("c", int(a["int"]), "const")
+                        elif ("cparam", a.get("display")) in st.env:
+                            env[("cparam", g["name"])] = st.env[("cparam", a.get("display"))]
         st2 = st.fork()
         st2.env_stack = None
         saved_env = st.env
@@ -898,6 +933,26 @@ def _range_update(st, key, v):
     st.ranges[x] = (lo, hi, ne)
 
 
+def subst_ty(ty, env):
+    """apply the type-parameter bindings of the inlined call chain (`('tparam', name) -> type`) to a type string"""
+    binds = {k[1]: v for k, v in env.items() if isinstance(k, tuple) and k[0] == "tparam"}
+    if not binds:
+        return ty
+    return re.sub(r"\b([A-Z][A-Za-z0-9_]*)\b(?!::|<)", lambda m: binds.get(m.group(1), m.group(1)), ty)
+
+
+def event_type_args(e):
+    """type arguments of a call event's callee, with the type parameters of inlined generic helpers substituted"""
+    out = []
+    tp = e.data.get("tparams") or {}
+    for a in e.callee.type_args():
+        ty = a["ty"]
+        if tp:
+            ty = re.sub(r"\b([A-Z][A-Za-z0-9_]*)\b(?!::|<)", lambda m: tp.get(m.group(1), m.group(1)), ty)
+        out.append(ty)
+    return out
+
+
 class _FnShim:
     """a fn item standing where a closure is expected (`opt.map_or(true, RcInner::try_increment_strong)`)"""
     kind = "fnitem"
@@ -929,11 +984,19 @@ class _FakeCallee:
 
 
 def _okp(r):
-    return ("field", "0", ("variant", "Ok", r))
+    return _field("0", ("variant", "Ok", r))
 
 
 def _errp(r):
     return ("field", "0", ("variant", "Err", r))
+
+
+# conversions that are each other's inverse (a newtype and its raw word; BIT-STATE proves as_raw(from_raw(x)) = x on
+# the bits): `State::from_raw(curr.as_raw())` denotes `curr`
+INVERSE_PAIRS = {"utils::State::from_raw": "utils::State::as_raw"}
+
+_VARIANT_TESTS = {"std::result::Result::is_ok": "Ok", "std::result::Result::is_err": "Err",
+                  "std::option::Option::is_some": "Some", "std::option::Option::is_none": "None"}
 
 
 def _project(nt, args):
@@ -948,13 +1011,28 @@ def _project(nt, args):
                 isinstance(a[2][2], tuple) and a[2][2][0] == "nzopt":
             return a[2][2][1]
         return None
+    if nt in _VARIANT_TESTS:
+        x = a
+        while isinstance(x, tuple) and x[0] == "ref":
+            x = x[1]
+        if isinstance(x, tuple) and x[0] == "agg" and x[2] in ("Ok", "Err", "Some", "None"):
+            return ("c", 1 if x[2] == _VARIANT_TESTS[nt] else 0, "bool")
+        return None
     if nt in ("std::result::Result::ok",):
+        if isinstance(a, tuple) and a[0] == "agg" and a[2] == "Ok":
+            return _some(a[3][0])
+        if isinstance(a, tuple) and a[0] == "agg" and a[2] == "Err":
+            return _NONE
         return ("okopt", a)
     if nt in ("std::result::Result::err",):
         return ("erropt", a)
     if nt in ("std::result::Result::unwrap", "std::result::Result::expect", "std::result::Result::unwrap_unchecked"):
+        if isinstance(a, tuple) and a[0] == "agg" and a[2] == "Ok":
+            return a[3][0]
         return ("field", "0", ("variant", "Ok", a))
     if nt in ("std::result::Result::unwrap_err", "std::result::Result::expect_err"):
+        if isinstance(a, tuple) and a[0] == "agg" and a[2] == "Err":
+            return a[3][0]
         return ("field", "0", ("variant", "Err", a))
     if nt in ("std::option::Option::unwrap", "std::option::Option::expect", "std::option::Option::unwrap_unchecked"):
         if isinstance(a, tuple) and a[0] == "okopt":
@@ -997,6 +1075,9 @@ def _deref(t):
     return ("deref", t)
 
 
+_STD_CAS = ("std::sync::atomic::Atomic::compare_exchange", "std::sync::atomic::Atomic::compare_exchange_weak")
+
+
 def _field(name, base):
     if isinstance(base, tuple):
         if base[0] == "agg":
@@ -1015,6 +1096,10 @@ def _field(name, base):
                 pass
         if base[0] == "variant" and isinstance(base[2], tuple) and base[2][0] == "agg":
             return _field(name, base[2])
+        if base[0] == "variant" and base[1] == "Ok" and name in (0, "0") and isinstance(base[2], tuple) and \
+                base[2][0] == "call" and norm(base[2][1]) in _STD_CAS and len(base[2][2]) > 1:
+            # a successful compare_exchange returns the value it replaced, which is its `current` argument
+            return base[2][2][1]
         if base[0] == "upd":
             # ('upd', base, path, val)
             if len(base[2]) == 1 and base[2][0] == ("field", name):
